@@ -3,6 +3,7 @@ package c14
 
 import (
 	"encoding/hex"
+	"encoding/json"
 	"fmt"
 	"os"
 	"strings"
@@ -666,3 +667,49 @@ func TestReplay(t *testing.T) {
 }
 
 var _ = memconn.ErrClosed
+
+// FuzzC14: bytes -> one hostile connection (a valid CONNECT, then the input cut
+// into frames by length prefixes), judged by the same oracle on a fresh broker.
+func FuzzC14(f *testing.F) {
+	enc := func(p *refcodec.Packet) []byte { return refcodec.Encode(p) }
+	frame := func(parts ...[]byte) []byte {
+		var out []byte
+		for _, p := range parts {
+			if len(p) > 255 {
+				p = p[:255]
+			}
+			out = append(out, byte(len(p)))
+			out = append(out, p...)
+		}
+		return out
+	}
+	f.Add(frame(enc(&refcodec.Packet{Type: refcodec.SUBSCRIBE, ID: 1, Filters: []string{"#"}, QoSs: []byte{1}}), enc(&refcodec.Packet{Type: refcodec.PUBLISH, Topic: "w/priv", QoS: 1, ID: 2, Payload: []byte("x")})))
+	f.Add(frame(enc(&refcodec.Packet{Type: refcodec.PINGREQ}), []byte{0x30, 0xFF, 0xFF, 0xFF, 0x7F}))
+	f.Add(frame(enc(&refcodec.Packet{Type: refcodec.PUBREL, ID: 9}), enc(&refcodec.Packet{Type: refcodec.CONNACK}), []byte{0x82, 0x00}))
+	f.Add(frame(enc(&refcodec.Packet{Type: refcodec.UNSUBSCRIBE, ID: 3, Filters: []string{"\x00"}}), enc(&refcodec.Packet{Type: refcodec.DISCONNECT})))
+	f.Fuzz(func(t *testing.T, b []byte) {
+		if len(b) > 2048 {
+			return
+		}
+		cp := refcodec.Encode(&refcodec.Packet{Type: refcodec.CONNECT, ProtoName: "MQTT", Level: 4, ClientID: "fz", Clean: len(b)%2 == 0})
+		hc := HConn{Frames: []string{hex.EncodeToString(cp)}}
+		for len(b) > 0 && len(hc.Frames) < 16 {
+			n := int(b[0])
+			b = b[1:]
+			if n > len(b) {
+				n = len(b)
+			}
+			if n > 0 {
+				hc.Frames = append(hc.Frames, hex.EncodeToString(b[:n]))
+			}
+			b = b[n:]
+		}
+		c := &Case{Conns: []HConn{hc}}
+		if v, _ := runCase(c); v != nil {
+			out, _ := json.MarshalIndent(map[string]interface{}{"property": "C14", "signature": v.sig, "message": v.msg, "tier": "thorough", "case": c}, "", " ")
+			_ = os.MkdirAll(ev.Root()+"/replays", 0o755)
+			_ = os.WriteFile(fmt.Sprintf("%s/replays/C14-fuzz-%x.json", ev.Root(), ev.Hash(v.sig)), out, 0o644)
+			t.Fatalf("%s: %s", v.sig, v.msg)
+		}
+	})
+}
